@@ -54,3 +54,13 @@ claim("C03",
       "For every admissible array length and every CRC type class {0,1,2,unknown} the decoder's CFG is enumerated with those two values bound: a declared CRC can only be accepted through the equal edge of the comparison, unknown types have no accepting path; on the accepting paths the CRC buffer provably receives exactly the block's reads/writes in order; the algorithm configuration is resolved through go/types to X-25 / CRC-32C, big-endian, zeroed field; the serialiser writes the freshly computed value and the announced length always matches the fields written; created primary blocks never end up CRC-less.",
       "Not decided: the bit-flip / burst detection theorems of the polynomials (mathematics, not code); the CRC libraries' internals.",
       "DESIGN.md §3 C03")
+claim("C01",
+      "wire-grammar agreement of sibling encoders/decoders by finite-domain path enumeration (15 codec pairs), optional-group guard equivalence by enumeration, effect analysis over the call graph (determinism), who-may-write inventory of the block list",
+      "Structural necessary conditions of the round trip, decided for every path of every codec: encoder and decoder perform the same primitive operations in the same order with the same optional groups and announced lengths and move the same fields; the fragment group is selected equivalently on both sides; serialisation reaches no source of non-determinism except the two exempt map-valued blocks; every writer of the block list keeps the payload block last. A dropped, duplicated, reordered or mis-guarded field on one side — the realistic codec regression — is reported with both grammars.",
+      "Not decided: equality of values and payload bytes after a round trip; CBOR width boundaries inside cboring; the accepted-bytes clause beyond the CRC-type and fragment-group consistency.",
+      "DESIGN.md §3 C01")
+claim("C02",
+      "must-validate by path enumeration of every bundle producer + call-graph completeness of the validation tree (all implementations of ExtensionBlock/EndpointType) + result-flow of every validator call + rule-guard presence (control dependence on conditions mentioning the rule's operands)",
+      "Every producer path that can succeed passes Bundle.CheckValid and returns its verdict; the validator reaches the validator of every block type / endpoint scheme in the program and drops no verdict; each structural rule of the statement has an error branch depending on its operands. Quantifies over all inputs because it is about all paths; a new block type without a reachable validator, a dropped verdict or a deleted rule is caught.",
+      "Not decided: the exact truth table of each predicate, regexp semantics, lifetime at the instant of use.",
+      "DESIGN.md §3 C02")
